@@ -29,7 +29,10 @@ def BOUNDS(tier):
 def jobs(tier):
     js = []
     for nm in streams.K:
-        js.append(dict(name="CUT:%s" % nm, family="CUT", skeleton=nm))
+        # long skeletons: the two-cut pairs (a, b) are spread over four jobs by the quarter a falls into
+        parts = 4 if len(streams.K[nm]) > 50 else 1
+        for part in range(parts):
+            js.append(dict(name="CUT:%s" % nm + (":q%d" % part if parts > 1 else ""), family="CUT", skeleton=nm, part=part, parts=parts))
     names = streams.CARRY if tier == "quick" else list(streams.K)
     for j in streams.f1_jobs(names, 1, per_job=4):
         j["cut"] = "near"
@@ -54,12 +57,14 @@ def make_inputs(job):
     if job["family"] == "CUT":
         sk = streams.K[job["skeleton"]]
         n = len(sk)
-        mode = eng.choose(3, "mode")
+        part, parts = job.get("part", 0), job.get("parts", 1)
+        mode = eng.choose(3, "mode") if part == 0 else 1
         if mode == 0:
             c = 1 + eng.choose(n - 1, "cut")
             cuts = [c]
         elif mode == 1:
-            a = 1 + eng.choose(n - 1, "cuta")
+            lo_a, hi_a = ((n - 1) * part) // parts, ((n - 1) * (part + 1)) // parts
+            a = 1 + lo_a + eng.choose(hi_a - lo_a, "cuta")
             b = 1 + eng.choose(n - 1, "cutb")
             eng.assume(a < b)
             cuts = [a, b]
